@@ -606,6 +606,10 @@ row('CODE.FROMNAME', ['C04', 'C08'], takes=[('name', 1)], pushes=[('code', None)
     clauses=[('fired.value.code.0', 'S0.name.len() >= 1 ==> top(S1.code, 0) is Identifier')])
 row('CODE.INSERT', ['C08'], takes=[('int', 1)], touches=['code'], clauses=[
     ('fired.code.shape', 'S1.code.len() == S0.code.len() && (S0.code.len() >= 1 ==> drop_n(S1.code, 1) =~= drop_n(S0.code, 1))'),
+    # "inserting the second item into the first at the indexed point": a following EXTRACT at the same index yields the inserted item
+    ('fired.extract-after-insert', '(S0.int.len() >= 1 && S0.code.len() >= 2 && 0 <= %s < %s(%s)) ==> %s(top(S1.code, 0), %s as nat) == Some(top(S0.code, 1))' % (_i, PTS, _c, NTH, _i)),
+    # an index beyond the points of the item leaves it as it is, as far as sizes go (the repository's test pins "does nothing when index too big")
+    ('fired.beyond-keeps-size', '(S0.int.len() >= 1 && S0.code.len() >= 2 && %s >= %s(%s)) ==> %s(top(S1.code, 0)) == %s(%s)' % (_i, PTS, _c, PTS, PTS, _c)),
     ('{C08,C10}unfired.code', '!(S0.int.len() >= 1 && S0.code.len() >= 2) ==> S1.code == S0.code')])
 row('CODE.LENGTH', ['C08'], fired='(S0.code.len() >= 1)',
     pushes=[('int', 'if top(S0.code, 0) is List { top(S0.code, 0)->items@.len() as i32 } else { 1i32 }')])
